@@ -36,8 +36,9 @@ pub mod shadow_std {
 
     pub mod fs {
         pub use super::super::simfs::{
-            copy, create_dir, create_dir_all, metadata, read, read_dir, read_to_string, remove_file, rename, write,
-            DirEntry, File, FileType, OpenOptions, ReadDir,
+            canonicalize, copy, create_dir, create_dir_all, exists, metadata, read, read_dir, read_to_string, remove_dir,
+            remove_dir_all, remove_file, rename, symlink_metadata, write, DirEntry, File, FileType, Metadata, OpenOptions,
+            ReadDir,
         };
         pub use ::std::fs::*;
     }
@@ -62,10 +63,10 @@ pub mod shadow_std {
     /// atomic access, spawn and join is a scheduling point at which the simulator decides which
     /// thread runs next (world::decide_sched).
     pub mod thread {
-        pub use super::super::simthread::{available_parallelism, park_timeout, spawn, Builder, JoinHandle};
+        pub use super::super::simthread::{available_parallelism, park_timeout, sleep, spawn, Builder, JoinHandle};
         pub use ::std::thread::*;
         pub use shuttle::thread::{
-            current, park, scope, sleep, yield_now, AccessError, LocalKey, Scope, ScopedJoinHandle, Thread, ThreadId,
+            current, park, scope, yield_now, AccessError, LocalKey, Scope, ScopedJoinHandle, Thread, ThreadId,
         };
     }
 
@@ -481,12 +482,50 @@ pub mod coll {
 // =============================================================================================
 pub mod simfs {
     use crate::rng::{Fnv, Rng};
-    use crate::world;
+    use crate::world::{self, Gate};
     use std::ffi::OsString;
     use std::io;
     use std::path::{Path, PathBuf};
     use std::sync::Arc;
 
+    /// payload of the unwinding that stands for the death of the process at a crash point
+    pub struct CrashRequest;
+
+    /// one open file descriptor of the simulated process
+    struct Fd;
+    impl Fd {
+        fn open() -> io::Result<Fd> {
+            match world::with(|w| w.fd_open()) {
+                Ok(()) => Ok(Fd),
+                // EMFILE
+                Err(()) => Err(io::Error::from_raw_os_error(24)),
+            }
+        }
+    }
+    impl Drop for Fd {
+        fn drop(&mut self) {
+            world::try_with(|w| w.open_fds = w.open_fds.saturating_sub(1));
+        }
+    }
+
+    /// the process image goes away at this instant (see `World::gate`)
+    pub(crate) fn crash() -> ! {
+        world::with(|w| w.crash_now());
+        std::panic::panic_any(CrashRequest)
+    }
+
+    /// One file-system mutation = one crash point. Returns false when the operation must not be
+    /// applied (the process is already gone); crashes before returning when the plan says "before".
+    fn gate_op() -> (bool, bool) {
+        match world::with(|w| w.gate(true, None)) {
+            Gate::Go => (true, false),
+            Gate::Gone => (false, false),
+            Gate::CrashBefore => crash(),
+            Gate::CrashAfter | Gate::Torn(_) => (true, true),
+        }
+    }
+
+    #[derive(Clone, Copy, Debug, PartialEq, Eq)]
     pub struct FileType {
         is_dir: bool,
     }
@@ -500,6 +539,117 @@ pub mod simfs {
         pub fn is_symlink(&self) -> bool {
             false
         }
+    }
+
+    /// What the simulated file system knows about a path: kind, length, modification time (image
+    /// files: an arbitrary checkout time per file; files the session wrote: the simulated clock at
+    /// their last modification).
+    #[derive(Clone, Debug)]
+    pub struct Metadata {
+        is_dir: bool,
+        len: u64,
+        mtime_ns: u64,
+    }
+    impl Metadata {
+        pub fn is_dir(&self) -> bool {
+            self.is_dir
+        }
+        pub fn is_file(&self) -> bool {
+            !self.is_dir
+        }
+        pub fn is_symlink(&self) -> bool {
+            false
+        }
+        pub fn file_type(&self) -> FileType {
+            FileType { is_dir: self.is_dir }
+        }
+        #[allow(clippy::len_without_is_empty)]
+        pub fn len(&self) -> u64 {
+            self.len
+        }
+        pub fn modified(&self) -> io::Result<super::simtime::SystemTime> {
+            Ok(super::simtime::SystemTime::from_nanos(self.mtime_ns))
+        }
+        pub fn created(&self) -> io::Result<super::simtime::SystemTime> {
+            self.modified()
+        }
+        pub fn accessed(&self) -> io::Result<super::simtime::SystemTime> {
+            self.modified()
+        }
+        // std::os::unix::fs::MetadataExt look-alikes, as inherent methods
+        pub fn mtime(&self) -> i64 {
+            (self.mtime_ns / 1_000_000_000) as i64
+        }
+        pub fn mtime_nsec(&self) -> i64 {
+            (self.mtime_ns % 1_000_000_000) as i64
+        }
+        pub fn size(&self) -> u64 {
+            self.len
+        }
+    }
+
+    /// kind / length / mtime of a path as this run sees it
+    pub(crate) fn stat(p: &Path) -> io::Result<Metadata> {
+        let wk = write_key_of(p);
+        let hit = world::with(|w| {
+            w.metadata_queries += 1;
+            if let Some(d) = w.written.get(&wk) {
+                return Some(Ok(Metadata {
+                    is_dir: false,
+                    len: d.len() as u64,
+                    mtime_ns: w.mtimes.get(&wk).copied().unwrap_or(w.clock_ns),
+                }));
+            }
+            if w.removed.contains(&wk) {
+                return Some(Err(io::Error::new(io::ErrorKind::NotFound, "No such file or directory")));
+            }
+            let key = w.image.normalise(p)?;
+            if let Some(d) = w.image.files.get(&key) {
+                return Some(Ok(Metadata {
+                    is_dir: false,
+                    len: d.len() as u64,
+                    mtime_ns: w.image_mtime(&key),
+                }));
+            }
+            if w.image.dirs.contains_key(&key) {
+                return Some(Ok(Metadata {
+                    is_dir: true,
+                    len: 4096,
+                    mtime_ns: w.image_mtime(&key),
+                }));
+            }
+            Some(Err(io::Error::new(io::ErrorKind::NotFound, "No such file or directory")))
+        });
+        match hit {
+            Some(r) => r,
+            None => {
+                // outside the image and not written by the session: the real tree answers kind and
+                // length; its modification time is environment, so a seeded checkout time stands in
+                world::with(|w| w.stats.fs_escapes += 1);
+                let m = std::fs::metadata(real_path(p))?;
+                let mt = world::with(|w| w.image_mtime(&wk));
+                Ok(Metadata {
+                    is_dir: m.is_dir(),
+                    len: m.len(),
+                    mtime_ns: mt,
+                })
+            }
+        }
+    }
+
+    pub fn metadata<P: AsRef<Path>>(p: P) -> io::Result<Metadata> {
+        stat(p.as_ref())
+    }
+    pub fn symlink_metadata<P: AsRef<Path>>(p: P) -> io::Result<Metadata> {
+        stat(p.as_ref())
+    }
+    /// `std::fs::exists`
+    pub fn exists<P: AsRef<Path>>(p: P) -> io::Result<bool> {
+        Ok(stat(p.as_ref()).is_ok())
+    }
+    pub fn canonicalize<P: AsRef<Path>>(p: P) -> io::Result<PathBuf> {
+        stat(p.as_ref())?;
+        Ok(real_path(p.as_ref()))
     }
 
     #[derive(Debug)]
@@ -518,14 +668,12 @@ pub mod simfs {
         pub fn file_type(&self) -> io::Result<FileType> {
             Ok(FileType { is_dir: self.is_dir })
         }
-        /// not simulated: answered by the real file system (same tree the image was loaded from)
-        pub fn metadata(&self) -> io::Result<std::fs::Metadata> {
-            world::with(|w| w.stats.fs_escapes += 1);
-            std::fs::metadata(real_path(&self.path))
+        pub fn metadata(&self) -> io::Result<Metadata> {
+            stat(&self.path)
         }
     }
 
-    fn real_path(p: &Path) -> PathBuf {
+    pub(crate) fn real_path(p: &Path) -> PathBuf {
         if p.is_absolute() {
             p.to_path_buf()
         } else {
@@ -536,6 +684,7 @@ pub mod simfs {
     pub struct ReadDir {
         entries: std::vec::IntoIter<DirEntry>,
         yielded: u64,
+        _fd: Fd,
     }
     impl Iterator for ReadDir {
         type Item = io::Result<DirEntry>;
@@ -557,6 +706,25 @@ pub mod simfs {
         }
     }
 
+    /// files the session wrote (or deleted) directly below directory `key`
+    fn overlay_children(key: &str, base: &mut Vec<(String, bool)>) {
+        world::with(|w| {
+            if w.written.is_empty() && w.removed.is_empty() {
+                return;
+            }
+            let prefix = format!("{}/", key);
+            base.retain(|(n, is_dir)| *is_dir || !w.removed.contains(&format!("{}{}", prefix, n)));
+            for k in w.written.keys() {
+                if let Some(rest) = k.strip_prefix(&prefix) {
+                    if !rest.contains('/') && !base.iter().any(|(n, _)| n == rest) {
+                        base.push((rest.to_string(), false));
+                    }
+                }
+            }
+            base.sort();
+        });
+    }
+
     pub fn read_dir<P: AsRef<Path>>(p: P) -> io::Result<ReadDir> {
         let p = p.as_ref();
         let key = world::with(|w| w.image.normalise(p));
@@ -564,7 +732,10 @@ pub mod simfs {
             Some(k) => {
                 let children = world::with(|w| w.image.dirs.get(&k).cloned());
                 match children {
-                    Some(c) => (k, c),
+                    Some(mut c) => {
+                        overlay_children(&k, &mut c);
+                        (k, c)
+                    }
                     None => {
                         let is_file = world::with(|w| w.image.files.contains_key(&k));
                         return Err(if is_file {
@@ -579,12 +750,25 @@ pub mod simfs {
                 // outside the image: list the real directory, sorted, then let the simulator order it
                 world::with(|w| w.stats.fs_escapes += 1);
                 let mut c = vec![];
-                for e in std::fs::read_dir(real_path(p))? {
-                    let e = e?;
-                    let is_dir = e.path().is_dir();
-                    c.push((e.file_name().to_string_lossy().into_owned(), is_dir));
+                let wk = write_key_of(p);
+                match std::fs::read_dir(real_path(p)) {
+                    Ok(rd) => {
+                        for e in rd {
+                            let e = e?;
+                            let is_dir = e.path().is_dir();
+                            c.push((e.file_name().to_string_lossy().into_owned(), is_dir));
+                        }
+                    }
+                    Err(e) => {
+                        // a directory that exists only as the parent of files the session wrote
+                        let any = world::with(|w| w.written.keys().any(|k| k.starts_with(&format!("{}/", wk))));
+                        if !any {
+                            return Err(e);
+                        }
+                    }
                 }
                 c.sort();
+                overlay_children(&wk, &mut c);
                 (format!("<real>{}", p.display()), c)
             }
         };
@@ -620,14 +804,19 @@ pub mod simfs {
         Ok(ReadDir {
             entries: entries.into_iter(),
             yielded: 0,
+            _fd: Fd::open()?,
         })
     }
 
     fn fetch(p: &Path) -> io::Result<(String, Arc<Vec<u8>>)> {
-        // a file this run wrote itself (temp file, table written then re-read) is served from the capture
+        // a file this session wrote itself (temp file, cache, table written then re-read) is
+        // served from the capture
         let wk = write_key_of(p);
         if let Some(d) = world::with(|w| w.written.get(&wk).cloned()) {
             return Ok((wk, Arc::new(d)));
+        }
+        if world::with(|w| w.removed.contains(&wk)) {
+            return Err(io::Error::new(io::ErrorKind::NotFound, "No such file or directory"));
         }
         let key = world::with(|w| w.image.normalise(p));
         match key {
@@ -714,42 +903,114 @@ pub mod simfs {
         })
     }
 
-    /// Read-only simulated file. With a non-zero `io_seed` its `read` delivers short reads and
-    /// `ErrorKind::Interrupted`, both of which `Read`'s contract allows at any time.
+    /// Simulated file. Opened for reading: with a non-zero `io_seed` its `read` delivers short
+    /// reads and `ErrorKind::Interrupted`, both of which `Read`'s contract allows at any time.
+    /// Opened for writing: bytes go to the session's captured files, every `write` call is a crash
+    /// point and follows the stream's short-write / EINTR plan.
     pub struct File {
         data: Arc<Vec<u8>>,
         pos: usize,
         rng: Option<Rng>,
         consecutive_eintr: u32,
-        /// Some(key) = created for writing: bytes go to the run's captured files
+        /// Some(key) = opened for writing
         write_key: Option<String>,
         /// short writes / EINTR plan of a file opened for writing
         wrng: Option<Rng>,
         consecutive_weintr: u32,
+        /// write position; None = append mode (always the end)
+        wpos: Option<usize>,
+        _fd: Fd,
     }
 
-    fn write_key_of(p: &Path) -> String {
-        world::with(|w| w.image.normalise(p)).unwrap_or_else(|| p.display().to_string())
+    pub(crate) fn write_key_of(p: &Path) -> String {
+        if let Some(k) = world::with(|w| w.image.normalise(p)) {
+            return k;
+        }
+        // one key per file whatever the spelling: absolute below the crate directory -> relative
+        let crate_dir = world::with(|w| w.image.crate_dir.clone());
+        let rel: PathBuf = match p.strip_prefix(&crate_dir) {
+            Ok(r) => r.to_path_buf(),
+            Err(_) => p.to_path_buf(),
+        };
+        let mut parts: Vec<String> = vec![];
+        let mut absolute = false;
+        for c in rel.components() {
+            match c {
+                std::path::Component::CurDir => {}
+                std::path::Component::ParentDir => {
+                    if parts.pop().is_none() {
+                        parts.push("..".into());
+                    }
+                }
+                std::path::Component::Normal(s) => parts.push(s.to_string_lossy().into_owned()),
+                std::path::Component::RootDir => absolute = true,
+                std::path::Component::Prefix(_) => {}
+            }
+        }
+        let k = parts.join("/");
+        if absolute {
+            format!("/{}", k)
+        } else {
+            k
+        }
     }
 
-    /// `fs::write`: captured, never touches the real tree
+    fn path_exists(key: &str, p: &Path) -> bool {
+        let in_world = world::with(|w| {
+            if w.written.contains_key(key) {
+                return Some(true);
+            }
+            if w.removed.contains(key) {
+                return Some(false);
+            }
+            match w.image.normalise(p) {
+                Some(k) => Some(w.image.files.contains_key(&k) || w.image.dirs.contains_key(&k)),
+                None => None,
+            }
+        });
+        match in_world {
+            Some(b) => b,
+            None => {
+                world::with(|w| w.stats.fs_escapes += 1);
+                real_path(p).exists()
+            }
+        }
+    }
+
+    /// `fs::write`: captured, never touches the real tree. Not atomic: the file is truncated, then
+    /// filled — a crash in between leaves it empty or partly written.
     pub fn write<P: AsRef<Path>, C: AsRef<[u8]>>(p: P, contents: C) -> io::Result<()> {
         let key = write_key_of(p.as_ref());
         let c = contents.as_ref().to_vec();
-        world::with(|w| {
+        let gate = world::with(|w| {
             let mut d = Fnv::default();
             d.bytes(&c);
             let mut pd = Fnv::default();
             pd.str(&key);
             w.event("fs_write", pd.0, d.0);
-            if !w.frozen {
-                w.written.insert(key, c);
-            }
+            w.gate(true, Some(c.len()))
         });
+        let (n, die) = match gate {
+            Gate::Gone => return Ok(()),
+            Gate::CrashBefore => crash(),
+            Gate::Go => (c.len(), false),
+            Gate::CrashAfter => (c.len(), true),
+            Gate::Torn(n) => (n, true),
+        };
+        world::with(|w| {
+            w.touch(&key);
+            w.removed.remove(&key);
+            w.written.insert(key, c[..n].to_vec());
+        });
+        if die {
+            crash();
+        }
         Ok(())
     }
 
-    /// `fs::rename` of a file this run wrote (write-to-temp-then-rename): moves the capture
+    /// `fs::rename`: moves a file the session wrote (write-to-temp-then-rename) or an image file;
+    /// atomic with respect to a crash (old or new, never in between), durable like any other
+    /// un-synced change
     pub fn rename<P: AsRef<Path>, Q: AsRef<Path>>(from: P, to: Q) -> io::Result<()> {
         let (kf, kt) = (write_key_of(from.as_ref()), write_key_of(to.as_ref()));
         world::with(|w| {
@@ -757,19 +1018,41 @@ pub mod simfs {
             pd.str(&kf);
             pd.str(&kt);
             w.event("rename", pd.0, 0);
-            match w.written.remove(&kf) {
-                Some(d) => {
-                    if !w.frozen {
-                        w.written.insert(kt, d);
-                    }
-                    Ok(())
+        });
+        let src: Option<Vec<u8>> = world::with(|w| {
+            w.written.get(&kf).cloned().or_else(|| {
+                if w.removed.contains(&kf) {
+                    None
+                } else {
+                    w.image.files.get(&kf).map(|d| (**d).clone())
                 }
-                None => Err(io::Error::new(
-                    io::ErrorKind::NotFound,
-                    "simulated fs: rename source was not written by this run",
-                )),
-            }
-        })
+            })
+        });
+        let Some(data) = src else {
+            return Err(io::Error::new(io::ErrorKind::NotFound, "No such file or directory (rename source)"));
+        };
+        let (apply, die) = gate_op();
+        if apply {
+            world::with(|w| {
+                let was_synced = w.synced.contains(&kf);
+                w.touch(&kf);
+                w.touch(&kt);
+                w.written.remove(&kf);
+                w.mtimes.remove(&kf);
+                if w.image.files.contains_key(&kf) {
+                    w.removed.insert(kf.clone());
+                }
+                w.removed.remove(&kt);
+                w.written.insert(kt.clone(), data);
+                if was_synced {
+                    w.synced.insert(kt.clone());
+                }
+            });
+        }
+        if die {
+            crash();
+        }
+        Ok(())
     }
 
     pub fn remove_file<P: AsRef<Path>>(p: P) -> io::Result<()> {
@@ -778,12 +1061,23 @@ pub mod simfs {
             let mut pd = Fnv::default();
             pd.str(&k);
             w.event("remove_file", pd.0, 0);
-            if w.written.remove(&k).is_some() || w.image.files.contains_key(&k) {
-                Ok(())
-            } else {
-                Err(io::Error::new(io::ErrorKind::NotFound, "No such file or directory"))
-            }
-        })
+        });
+        if !path_exists(&k, p.as_ref()) {
+            return Err(io::Error::new(io::ErrorKind::NotFound, "No such file or directory"));
+        }
+        let (apply, die) = gate_op();
+        if apply {
+            world::with(|w| {
+                w.touch(&k);
+                w.written.remove(&k);
+                w.mtimes.remove(&k);
+                w.removed.insert(k.clone());
+            });
+        }
+        if die {
+            crash();
+        }
+        Ok(())
     }
 
     pub fn create_dir<P: AsRef<Path>>(_p: P) -> io::Result<()> {
@@ -792,18 +1086,35 @@ pub mod simfs {
     pub fn create_dir_all<P: AsRef<Path>>(_p: P) -> io::Result<()> {
         Ok(())
     }
+    pub fn remove_dir<P: AsRef<Path>>(_p: P) -> io::Result<()> {
+        Ok(())
+    }
+    /// removes what the session wrote below the directory
+    pub fn remove_dir_all<P: AsRef<Path>>(p: P) -> io::Result<()> {
+        let k = write_key_of(p.as_ref());
+        let (apply, die) = gate_op();
+        if apply {
+            world::with(|w| {
+                let prefix = format!("{}/", k);
+                let keys: Vec<String> = w.written.keys().filter(|x| x.starts_with(&prefix)).cloned().collect();
+                for x in keys {
+                    w.touch(&x);
+                    w.written.remove(&x);
+                    w.mtimes.remove(&x);
+                }
+            });
+        }
+        if die {
+            crash();
+        }
+        Ok(())
+    }
 
     pub fn copy<P: AsRef<Path>, Q: AsRef<Path>>(from: P, to: Q) -> io::Result<u64> {
         let data = read(from)?;
         let n = data.len() as u64;
         write(to, data)?;
         Ok(n)
-    }
-
-    /// not simulated: answered by the real file system (the tree the image was loaded from)
-    pub fn metadata<P: AsRef<Path>>(p: P) -> io::Result<std::fs::Metadata> {
-        world::with(|w| w.stats.fs_escapes += 1);
-        std::fs::metadata(real_path(p.as_ref()))
     }
 
     #[derive(Clone, Debug, Default)]
@@ -845,7 +1156,15 @@ pub mod simfs {
         }
         pub fn open<P: AsRef<Path>>(&self, p: P) -> io::Result<File> {
             if self.write || self.append {
-                File::create_with(p.as_ref(), self.truncate && !self.append)
+                let key = write_key_of(p.as_ref());
+                let exists = path_exists(&key, p.as_ref());
+                if self.create_new && exists {
+                    return Err(io::Error::new(io::ErrorKind::AlreadyExists, "File exists"));
+                }
+                if !exists && !self.create && !self.create_new {
+                    return Err(io::Error::new(io::ErrorKind::NotFound, "No such file or directory"));
+                }
+                File::create_with(p.as_ref(), self.truncate && !self.append, self.append)
             } else {
                 File::open(p)
             }
@@ -856,8 +1175,10 @@ pub mod simfs {
         pub fn open<P: AsRef<Path>>(p: P) -> io::Result<File> {
             let (k, d) = fetch(p.as_ref())?;
             let d = content_with_hard_fault(&d)?;
+            let fd = Fd::open()?;
             let io_seed = world::with(|w| w.decide_open(&k));
             Ok(File {
+                _fd: fd,
                 data: d,
                 pos: 0,
                 rng: if io_seed == 0 { None } else { Some(Rng::new(io_seed)) },
@@ -865,30 +1186,53 @@ pub mod simfs {
                 write_key: None,
                 wrng: None,
                 consecutive_weintr: 0,
+                wpos: Some(0),
             })
         }
         /// `File::create`: captured, never touches the real tree
         pub fn create<P: AsRef<Path>>(p: P) -> io::Result<File> {
-            File::create_with(p.as_ref(), true)
+            File::create_with(p.as_ref(), true, false)
+        }
+        pub fn create_new<P: AsRef<Path>>(p: P) -> io::Result<File> {
+            OpenOptions::new().write(true).create_new(true).open(p)
         }
         pub fn options() -> OpenOptions {
             OpenOptions::new()
         }
-        fn create_with(p: &Path, truncate: bool) -> io::Result<File> {
+        fn create_with(p: &Path, truncate: bool, append: bool) -> io::Result<File> {
             let key = write_key_of(p);
-            let io_seed = world::with(|w| {
+            let fd = Fd::open()?;
+            world::with(|w| {
                 let mut pd = Fnv::default();
                 pd.str(&key);
                 w.event("create", pd.0, truncate as u64);
-                if !w.frozen {
-                    let e = w.written.entry(key.clone()).or_default();
-                    if truncate {
-                        e.clear();
-                    }
-                }
-                w.decide_stream(&format!("<write>{}", key), true)
             });
+            // creating / truncating is a mutation of its own (an existing file is emptied)
+            let (apply, die) = gate_op();
+            if apply {
+                world::with(|w| {
+                    w.touch(&key);
+                    w.removed.remove(&key);
+                    if !w.written.contains_key(&key) {
+                        // opening an image file (or a real file) for writing without truncation
+                        // starts from its content
+                        let base = if truncate {
+                            vec![]
+                        } else {
+                            w.image.files.get(&key).map(|d| (**d).clone()).unwrap_or_default()
+                        };
+                        w.written.insert(key.clone(), base);
+                    } else if truncate {
+                        w.written.get_mut(&key).unwrap().clear();
+                    }
+                });
+            }
+            if die {
+                crash();
+            }
+            let io_seed = world::with(|w| w.decide_stream(&format!("<write>{}", key), true));
             Ok(File {
+                _fd: fd,
                 data: Arc::new(vec![]),
                 pos: 0,
                 rng: None,
@@ -896,33 +1240,81 @@ pub mod simfs {
                 write_key: Some(key),
                 wrng: if io_seed == 0 { None } else { Some(Rng::new(io_seed)) },
                 consecutive_weintr: 0,
+                wpos: if append { None } else { Some(0) },
             })
         }
-        /// not simulated
-        pub fn metadata(&self) -> io::Result<std::fs::Metadata> {
-            Err(io::Error::new(io::ErrorKind::Unsupported, "metadata of a simulated file"))
+        pub fn metadata(&self) -> io::Result<Metadata> {
+            match &self.write_key {
+                Some(k) => world::with(|w| {
+                    Ok(Metadata {
+                        is_dir: false,
+                        len: w.written.get(k).map(|d| d.len()).unwrap_or(0) as u64,
+                        mtime_ns: w.mtimes.get(k).copied().unwrap_or(w.clock_ns),
+                    })
+                }),
+                None => Ok(Metadata {
+                    is_dir: false,
+                    len: self.data.len() as u64,
+                    mtime_ns: world::with(|w| w.image_mtime("<open file>")),
+                }),
+            }
         }
-        /// durability is not part of the simulated world (no crash is injected): no-ops
+        /// the file's current content becomes durable: a later power loss cannot take it back
         pub fn sync_all(&self) -> io::Result<()> {
-            Ok(())
-        }
-        pub fn sync_data(&self) -> io::Result<()> {
-            Ok(())
-        }
-        pub fn set_len(&self, n: u64) -> io::Result<()> {
             if let Some(key) = &self.write_key {
                 world::with(|w| {
                     if !w.frozen {
-                        w.written.entry(key.clone()).or_default().resize(n as usize, 0);
+                        w.event("fsync", 0, 0);
+                        w.mark_synced(key);
                     }
                 });
             }
             Ok(())
         }
+        pub fn sync_data(&self) -> io::Result<()> {
+            self.sync_all()
+        }
+        pub fn set_len(&self, n: u64) -> io::Result<()> {
+            if let Some(key) = &self.write_key {
+                let (apply, die) = gate_op();
+                if apply {
+                    world::with(|w| {
+                        w.touch(key);
+                        w.written.entry(key.clone()).or_default().resize(n as usize, 0);
+                    });
+                }
+                if die {
+                    crash();
+                }
+            }
+            Ok(())
+        }
+        pub fn try_clone(&self) -> io::Result<File> {
+            Ok(File {
+                _fd: Fd::open()?,
+                data: self.data.clone(),
+                pos: self.pos,
+                rng: self.rng.clone(),
+                consecutive_eintr: 0,
+                write_key: self.write_key.clone(),
+                wrng: self.wrng.clone(),
+                consecutive_weintr: 0,
+                wpos: self.wpos,
+            })
+        }
     }
 
     impl io::Read for File {
         fn read(&mut self, buf: &mut [u8]) -> io::Result<usize> {
+            if let Some(key) = &self.write_key {
+                // a handle opened read+write: read what the file holds now
+                let cur = world::with(|w| w.written.get(key).cloned().unwrap_or_default());
+                let pos = self.pos.min(cur.len());
+                let n = (cur.len() - pos).min(buf.len());
+                buf[..n].copy_from_slice(&cur[pos..pos + n]);
+                self.pos = pos + n;
+                return Ok(n);
+            }
             let remaining = self.data.len() - self.pos;
             let mut n = remaining.min(buf.len());
             if let Some(rng) = self.rng.as_mut() {
@@ -959,15 +1351,36 @@ pub mod simfs {
                 Ok(n) => n,
                 Err(e) => return Err(e),
             };
-            let buf = &buf[..n];
-            world::with(|w| {
+            let gate = world::with(|w| {
                 let mut d = Fnv::default();
-                d.bytes(buf);
-                w.event("fwrite", d.0, buf.len() as u64);
-                if !w.frozen {
-                    w.written.entry(key).or_default().extend_from_slice(buf);
-                }
+                d.bytes(&buf[..n]);
+                w.event("fwrite", d.0, n as u64);
+                w.gate(true, Some(n))
             });
+            let (m, die) = match gate {
+                Gate::Gone => return Ok(n),
+                Gate::CrashBefore => crash(),
+                Gate::Go => (n, false),
+                Gate::CrashAfter => (n, true),
+                Gate::Torn(m) => (m.min(n), true),
+            };
+            let data = &buf[..m];
+            let wpos = self.wpos;
+            let end = world::with(|w| {
+                w.touch(&key);
+                let f = w.written.entry(key).or_default();
+                let at = wpos.unwrap_or(f.len()).min(f.len());
+                let overlap = (f.len() - at).min(data.len());
+                f[at..at + overlap].copy_from_slice(&data[..overlap]);
+                f.extend_from_slice(&data[overlap..]);
+                at + data.len()
+            });
+            if let Some(p) = self.wpos.as_mut() {
+                *p = end;
+            }
+            if die {
+                crash();
+            }
             Ok(n)
         }
         fn flush(&mut self) -> io::Result<()> {
@@ -977,6 +1390,23 @@ pub mod simfs {
 
     impl io::Seek for File {
         fn seek(&mut self, s: io::SeekFrom) -> io::Result<u64> {
+            if let Some(key) = &self.write_key {
+                let len = world::with(|w| w.written.get(key).map(|d| d.len()).unwrap_or(0));
+                let cur = self.wpos.unwrap_or(len);
+                let new = match s {
+                    io::SeekFrom::Start(o) => o as i128,
+                    io::SeekFrom::End(o) => len as i128 + o as i128,
+                    io::SeekFrom::Current(o) => cur as i128 + o as i128,
+                };
+                if new < 0 {
+                    return Err(io::Error::new(io::ErrorKind::InvalidInput, "negative seek"));
+                }
+                if self.wpos.is_some() {
+                    self.wpos = Some(new as usize);
+                }
+                self.pos = new as usize;
+                return Ok(new as u64);
+            }
             let new = match s {
                 io::SeekFrom::Start(o) => o as i128,
                 io::SeekFrom::End(o) => self.data.len() as i128 + o as i128,
@@ -1458,6 +1888,15 @@ pub mod simthread {
         None
     }
 
+    /// `thread::sleep`: the thread gives up the CPU (the engine's own `sleep` is a scheduling point
+    /// that the no-preemption default answers with "keep running", which turns every
+    /// poll-and-sleep loop into a spin that starves the threads it waits for); simulated time
+    /// passes.
+    pub fn sleep(dur: std::time::Duration) {
+        world::with(|w| w.clock_ns = w.clock_ns.saturating_add(dur.as_nanos() as u64));
+        shuttle::thread::yield_now();
+    }
+
     /// `thread::park_timeout`: may return spuriously at any time, so: let the others run, return.
     pub fn park_timeout(_dur: std::time::Duration) {
         shuttle::thread::yield_now();
@@ -1538,6 +1977,18 @@ pub mod simthread {
                 inner: self.inner.spawn(wrap(f, done.clone()))?,
                 done,
             })
+        }
+        /// the engine has no named scoped threads: the thread is a plain scoped one
+        pub fn spawn_scoped<'scope, 'env, F, T>(
+            self,
+            scope: &'scope shuttle::thread::Scope<'scope, 'env>,
+            f: F,
+        ) -> std::io::Result<shuttle::thread::ScopedJoinHandle<'scope, T>>
+        where
+            F: FnOnce() -> T + Send + 'scope,
+            T: Send + 'scope,
+        {
+            Ok(scope.spawn(f))
         }
     }
 
@@ -1875,6 +2326,9 @@ pub mod simtime {
 
     impl SystemTime {
         pub const UNIX_EPOCH: SystemTime = SystemTime(0);
+        pub(crate) fn from_nanos(n: u64) -> SystemTime {
+            SystemTime(n)
+        }
         pub fn now() -> SystemTime {
             SystemTime(world::with(|w| w.read_clock()))
         }
@@ -1942,6 +2396,19 @@ pub mod simtime {
 }
 
 pub fn emit_str(s: &str) {
+    // a print is a crash point too (what a crashed run printed is discarded by the session)
+    let gate = crate::world::with(|w| w.gate(false, None));
+    if matches!(gate, crate::world::Gate::CrashBefore) {
+        simfs::crash();
+    }
+    let die = matches!(gate, crate::world::Gate::CrashAfter | crate::world::Gate::Torn(_));
+    emit_str_inner(s);
+    if die {
+        simfs::crash();
+    }
+}
+
+fn emit_str_inner(s: &str) {
     crate::world::with(|w| {
         if w.frozen {
             w.stats.prints_after_exit += 1;
